@@ -172,6 +172,9 @@ class State:
         self.events = []           # free-form event log (shims append)
         self.explorer = None       # set by symx.explore
         self.rootcache = {}
+        self.defs = {}             # name of a purified atom S!k -> the term it stands for
+        self.def_of = {}           # term id -> S!k variable
+        self.fullpairs = []        # (S!k, fully unfolded definition)
         self.kappa_zero = True     # treat 1e-100 / nextafter regularisers as 0
 
     def fresh(self, prefix):
@@ -202,6 +205,59 @@ def E_atom(arg):
     ST.evar_of[str(v)] = arg
     ST.assume(v > 0)
     return v
+
+
+def atomize(t, positive=True):
+    """a positive (or non-negative) compound term used as an atom of a monomial is given a name S!k; identities are first tried
+    with the names opaque (cheap polynomial normal form), and only then with the definitions expanded"""
+    if z3.is_const(t) and t.decl().kind() == z3.Z3_OP_UNINTERPRETED:
+        return t
+    key = t.get_id()
+    hit = ST.def_of.get(key)
+    if hit is not None:
+        return hit
+    v = z3.Real("S!%d" % (len(ST.defs) + 1))
+    ST.defs[str(v)] = t
+    ST.def_of[key] = v
+    # fully unfolded definition, computed once (earlier atoms are already unfolded): one C-level substitution
+    ST.fullpairs.append((v, z3.substitute(t, *ST.fullpairs) if ST.fullpairs else t))
+    ST.assume(v > 0 if positive else v >= 0)
+    return v
+
+
+def expand_defs(t, limit=200):
+    """substitute purified atoms by their (fully unfolded) definitions: a single C-level substitution"""
+    if not ST.fullpairs:
+        return t
+    return z3.substitute(t, *ST.fullpairs)
+
+
+_SRE = None
+
+
+def _defs_in(t):
+    """names of purified atoms occurring in t (via the C-level printer; let-bound sharing keeps it linear)"""
+    global _SRE
+    if _SRE is None:
+        import re
+        _SRE = re.compile(r"S!\d+")
+    if not ST.defs:
+        return []
+    return [nm for nm in set(_SRE.findall(t.sexpr())) if nm in ST.defs]
+
+
+def def_constraints(terms):
+    """defining equalities S!k == term for every purified atom occurring (transitively) in `terms`"""
+    out, done, todo = [], set(), list(terms)
+    while todo:
+        t = todo.pop()
+        for nm in _defs_in(t):
+            if nm not in done:
+                done.add(nm)
+                d = ST.defs[nm]
+                out.append(z3.Real(nm) == d)
+                todo.append(d)
+    return out
 
 
 # ----------------------------------------------------------------------------------------
@@ -590,10 +646,12 @@ class SR(Sym):
         if is_num(self.n):
             return SR(R(1 / numval(self.n)), finv, self.sg)
         if self.sg == "p":
-            return SR(_ONE, _fmul(finv, {self.n.get_id(): (self.n, 1)}, -1), "p")
+            a = atomize(self.n)
+            return SR(_ONE, _fmul(finv, {a.get_id(): (a, 1)}, -1), "p")
         if self.sg == "n":
             m = t_neg(self.n)
-            return SR(R(-1), _fmul(finv, {m.get_id(): (m, 1)}, -1), "n")
+            a = atomize(m)
+            return SR(R(-1), _fmul(finv, {a.get_id(): (a, 1)}, -1), "n")
         ST.oblige("div-nonzero", self.n != 0, "division by a value of unknown sign")
         sq = t_mul(self.n, self.n)
         return SR(self.n, _fmul(finv, {sq.get_id(): (sq, 1)}, -1), None)
@@ -691,7 +749,8 @@ class SR(Sym):
             ST.oblige("log-nonneg", self.n >= 0, "log argument")
         if is_num(self.n):
             return SL(numval(self.n), self.f, None, st)
-        return SL(Fraction(1), _fmul(self.f, {self.n.get_id(): (self.n, 1)}), None, st)
+        a = atomize(self.n, positive=(st == "p"))
+        return SL(Fraction(1), _fmul(self.f, {a.get_id(): (a, 1)}), None, st)
 
     # -- comparisons -------------------------------------------------------------------
     def _cmp(self, o, op):
@@ -851,10 +910,12 @@ class SL(Sym):
         if is_num(n):
             c *= numval(n)
         else:
+            n = atomize(n, positive=(st == "p"))
             f = _fmul(f, {n.get_id(): (n, 1)})
         if is_num(d):
             c /= numval(d)
         else:
+            d = atomize(d)
             f = _fmul(f, {d.get_id(): (d, 1)}, -1)
         if c == 0:
             return SL.zero()
@@ -1125,6 +1186,7 @@ def sl_sum(items):
     st = "p" if any(x.st == "p" for x in nz) else None
     if is_num(tot):
         return SL(numval(tot), common, a, st)
+    tot = atomize(tot, positive=(st == "p"))
     return SL(Fraction(1), _fmul(common, {tot.get_id(): (tot, 1)}), a, st)
 
 
